@@ -1,210 +1,10 @@
-(* Entry-level updates of the expiration queue preserve the entry invariant (ExpSetPre), and the
-   atomic queue moves q_add / q_remove preserve QInv. *)
+(* The atomic queue moves (q_add, q_remove, update-or-delete of one entry) preserve QInv. *)
 From Coq Require Import ZArith List Bool Lia.
 From stdpp Require Import gmap.
-From VF Require Import Base.SetSum Model.Partition Model.PartitionInv Proofs.Partition_base.
+From VF Require Import Base.SetSum Model.Partition Model.PartitionInv Proofs.Partition_base
+  Proofs.Partition_entry.
 Import ListNotations.
 Open Scope Z_scope.
-
-Ltac pp_crush :=
-  unfold pp_add, pp_sub, pp_neg, pp0 in *; apply pp_eq; cbn [raw qa] in *; lia.
-
-(* E1: fresh non-faulty sectors T, all expiring (quantised) at k, join the on-time set *)
-Lemma esp_add_on_time qs tbl F k es es' (T : gset N) :
-  ExpSetPre qs tbl F k es ->
-  T ## es_all es -> T ## F ->
-  (forall n, n ∈ T -> exists s, tbl !! n = Some s /\ quant_up qs (s_exp s) = k) ->
-  on_time es' = on_time es ∪ T -> early es' = early es ->
-  on_time_pledge es' = on_time_pledge es + spledge tbl T ->
-  active_power es' = pp_add (active_power es) (spow tbl T) ->
-  faulty_power es' = faulty_power es ->
-  fee_deduction es' = fee_deduction es + sfee tbl T ->
-  ExpSetPre qs tbl F k es'.
-Proof.
-  intros [Pq Pk Pd Pef Pot Pea Ppl Pact Pflt Pfee] HT HTF Hat Eot Eea Epl Eact Eflt Efee. unfold es_all in *.
-  constructor; rewrite ?Eot, ?Eea, ?Epl, ?Eact, ?Eflt, ?Efee; try assumption.
-  - set_solver.
-  - intros n Hn. apply elem_of_union in Hn as [Hn|Hn]; auto.
-  - rewrite Ppl. symmetry. apply spledge_add_eq; set_solver.
-  - rewrite Pact. symmetry. apply spow_add_eq; set_solver.
-  - rewrite Pflt. apply spow_eq. set_solver.
-  - unfold es_all. rewrite Eot, Eea, Pfee. symmetry. unfold es_all.
-    apply sfee_add_eq; set_solver.
-Qed.
-
-(* E2: fresh faulty sectors T join the early set at a key below their own expiration *)
-Lemma esp_add_early qs tbl F k es es' (T : gset N) :
-  ExpSetPre qs tbl F k es ->
-  T ## es_all es -> T ⊆ F ->
-  (forall n, n ∈ T -> exists s, tbl !! n = Some s /\ k < quant_up qs (s_exp s)) ->
-  on_time es' = on_time es -> early es' = early es ∪ T ->
-  on_time_pledge es' = on_time_pledge es ->
-  active_power es' = active_power es ->
-  faulty_power es' = pp_add (faulty_power es) (spow tbl T) ->
-  fee_deduction es' = fee_deduction es + sfee tbl T ->
-  ExpSetPre qs tbl F k es'.
-Proof.
-  intros [Pq Pk Pd Pef Pot Pea Ppl Pact Pflt Pfee] HT HTF Hat Eot Eea Epl Eact Eflt Efee. unfold es_all in *.
-  constructor; rewrite ?Eot, ?Eea, ?Epl, ?Eact, ?Eflt, ?Efee; try assumption.
-  - set_solver.
-  - set_solver.
-  - intros n Hn. apply elem_of_union in Hn as [Hn|Hn]; auto.
-  - rewrite Pflt. symmetry. apply spow_add_eq; set_solver.
-  - unfold es_all. rewrite Eot, Eea, Pfee. symmetry. unfold es_all.
-    apply sfee_add_eq; set_solver.
-Qed.
-
-(* E3: non-faulty on-time sectors T leave the entry *)
-Lemma esp_remove_active qs tbl F k es es' (T : gset N) :
-  ExpSetPre qs tbl F k es ->
-  T ⊆ on_time es -> T ## F ->
-  on_time es' = on_time es ∖ T -> early es' = early es ->
-  on_time_pledge es' = on_time_pledge es - spledge tbl T ->
-  active_power es' = pp_sub (active_power es) (spow tbl T) ->
-  faulty_power es' = faulty_power es ->
-  fee_deduction es' = fee_deduction es - sfee tbl T ->
-  ExpSetPre qs tbl F k es'.
-Proof.
-  intros [Pq Pk Pd Pef Pot Pea Ppl Pact Pflt Pfee] HT HTF Eot Eea Epl Eact Eflt Efee. unfold es_all in *.
-  constructor; rewrite ?Eot, ?Eea, ?Epl, ?Eact, ?Eflt, ?Efee; try assumption.
-  - set_solver.
-  - intros n Hn. apply Pot. set_solver.
-  - rewrite Ppl.
-    rewrite (spledge_add_eq tbl (on_time es) (on_time es ∖ T) T); [lia| |set_solver].
-    intros n. destruct (decide (n ∈ T)); set_solver.
-  - rewrite Pact.
-    rewrite (spow_add_eq tbl (on_time es ∖ F) ((on_time es ∖ T) ∖ F) T); [|  |set_solver].
-    + pp_crush.
-    + intros n. destruct (decide (n ∈ T)); set_solver.
-  - rewrite Pflt. apply spow_eq. set_solver.
-  - unfold es_all. rewrite Eot, Eea, Pfee. unfold es_all.
-    rewrite (sfee_add_eq tbl (on_time es ∪ early es) (on_time es ∖ T ∪ early es) T); [lia| |set_solver].
-    intros n. destruct (decide (n ∈ T)); set_solver.
-Qed.
-
-(* E4: non-faulty on-time sectors T become faulty in place (fault set grows by T) *)
-Lemma esp_mark_faulty qs tbl F k es es' (T : gset N) :
-  ExpSetPre qs tbl F k es ->
-  T ⊆ on_time es -> T ## F ->
-  on_time es' = on_time es -> early es' = early es ->
-  on_time_pledge es' = on_time_pledge es ->
-  active_power es' = pp_sub (active_power es) (spow tbl T) ->
-  faulty_power es' = pp_add (faulty_power es) (spow tbl T) ->
-  fee_deduction es' = fee_deduction es ->
-  ExpSetPre qs tbl (F ∪ T) k es'.
-Proof.
-  intros [Pq Pk Pd Pef Pot Pea Ppl Pact Pflt Pfee] HT HTF Eot Eea Epl Eact Eflt Efee. unfold es_all in *.
-  constructor; rewrite ?Eot, ?Eea, ?Epl, ?Eact, ?Eflt, ?Efee; try assumption.
-  - set_solver.
-  - rewrite Pact.
-    rewrite (spow_add_eq tbl (on_time es ∖ F) (on_time es ∖ (F ∪ T)) T); [| |set_solver].
-    + pp_crush.
-    + intros n. destruct (decide (n ∈ T)); set_solver.
-  - rewrite Pflt. symmetry. apply spow_add_eq; [|set_solver].
-    intros n. destruct (decide (n ∈ T)); set_solver.
-  - unfold es_all. rewrite Eot, Eea. exact Pfee.
-Qed.
-
-(* E5: recovery.  Faulty on-time sectors Tot become active in place; early sectors Tea leave the
-   entry (to be re-added on time elsewhere).  F' is the fault set afterwards. *)
-Lemma esp_recover qs tbl F F' k es es' (Tot Tea : gset N) :
-  ExpSetPre qs tbl F k es ->
-  Tot ⊆ on_time es ∩ F -> Tea ⊆ early es ->
-  (forall n, n ∈ es_all es -> (n ∈ F' <-> n ∈ F /\ n ∉ Tot ∪ Tea)) ->
-  on_time es' = on_time es -> early es' = early es ∖ Tea ->
-  on_time_pledge es' = on_time_pledge es ->
-  active_power es' = pp_add (active_power es) (spow tbl Tot) ->
-  faulty_power es' = pp_sub (pp_sub (faulty_power es) (spow tbl Tot)) (spow tbl Tea) ->
-  fee_deduction es' = fee_deduction es - sfee tbl Tea ->
-  ExpSetPre qs tbl F' k es'.
-Proof.
-  intros [Pq Pk Pd Pef Pot Pea Ppl Pact Pflt Pfee] HTot HTea HF Eot Eea Epl Eact Eflt Efee. unfold es_all in *.
-  constructor; rewrite ?Eot, ?Eea, ?Epl, ?Eact, ?Eflt, ?Efee; try assumption.
-  - set_solver.
-  - intros n Hn. apply HF; set_solver.
-  - intros n Hn. apply Pea. set_solver.
-  - rewrite Pact. symmetry. apply spow_add_eq.
-    + intros n. rewrite elem_of_union, !elem_of_difference. split.
-      * intros [Hn Hnf]. destruct (decide (n ∈ Tot)); [right; assumption|left].
-        split; [assumption|]. intros HnF. apply Hnf. apply HF; set_solver.
-      * intros [[Hn Hnf]|Hn]; [|split; [set_solver|]].
-        { split; [assumption|]. intros HnF'. apply HF in HnF'; [tauto|set_solver]. }
-        intros HnF'. apply HF in HnF'; set_solver.
-    + set_solver.
-  - rewrite Pflt.
-    rewrite (spow_add_eq tbl (on_time es ∩ F ∪ early es)
-               (on_time es ∩ F' ∪ early es ∖ Tea) (Tot ∪ Tea)).
-    + rewrite (spow_add_eq tbl (Tot ∪ Tea) Tot Tea); [pp_crush|reflexivity|set_solver].
-    + intros n. rewrite !elem_of_union, !elem_of_intersection, !elem_of_difference.
-      split.
-      * intros [[Hn HnF]|Hn].
-        { destruct (decide (n ∈ Tot)); [tauto|]. left. left. split; [assumption|].
-          apply HF; set_solver. }
-        { destruct (decide (n ∈ Tea)); tauto. }
-      * intros [[[Hn HnF']|[Hn _]]|[Hn|Hn]]; try tauto.
-        { left. split; [assumption|]. apply HF in HnF'; [tauto|set_solver]. }
-        { left. set_solver. }
-        { right. set_solver. }
-    + intros n. rewrite !elem_of_union, !elem_of_intersection, !elem_of_difference.
-      intros [[Hn HnF']|[Hn Hnt]] [Ht|Ht]; try tauto.
-      * apply HF in HnF'; set_solver.
-      * set_solver.
-      * set_solver.
-  - unfold es_all. rewrite Eot, Eea, Pfee. unfold es_all.
-    rewrite (sfee_add_eq tbl (on_time es ∪ early es) (on_time es ∪ early es ∖ Tea) Tea); [lia| |set_solver].
-    intros n. destruct (decide (n ∈ Tea)); set_solver.
-Qed.
-
-(* E6: faulty sectors leave the entry (termination): Tot on-time-and-faulty, Tea early *)
-Lemma esp_remove_faulty qs tbl F k es es' (Tot Tea : gset N) :
-  ExpSetPre qs tbl F k es ->
-  Tot ⊆ on_time es ∩ F -> Tea ⊆ early es ->
-  on_time es' = on_time es ∖ Tot -> early es' = early es ∖ Tea ->
-  on_time_pledge es' = on_time_pledge es - spledge tbl Tot ->
-  active_power es' = active_power es ->
-  faulty_power es' = pp_sub (faulty_power es) (spow tbl (Tot ∪ Tea)) ->
-  fee_deduction es' = fee_deduction es - sfee tbl (Tot ∪ Tea) ->
-  ExpSetPre qs tbl F k es'.
-Proof.
-  intros [Pq Pk Pd Pef Pot Pea Ppl Pact Pflt Pfee] HTot HTea Eot Eea Epl Eact Eflt Efee. unfold es_all in *.
-  constructor; rewrite ?Eot, ?Eea, ?Epl, ?Eact, ?Eflt, ?Efee; try assumption.
-  - set_solver.
-  - set_solver.
-  - intros n Hn. apply Pot. set_solver.
-  - intros n Hn. apply Pea. set_solver.
-  - rewrite Ppl.
-    rewrite (spledge_add_eq tbl (on_time es) (on_time es ∖ Tot) Tot); [lia| |set_solver].
-    intros n. destruct (decide (n ∈ Tot)); set_solver.
-  - rewrite Pact. apply spow_eq. set_solver.
-  - rewrite Pflt.
-    rewrite (spow_add_eq tbl (on_time es ∩ F ∪ early es)
-               ((on_time es ∖ Tot) ∩ F ∪ early es ∖ Tea) (Tot ∪ Tea)); [pp_crush| |set_solver].
-    intros n. destruct (decide (n ∈ Tot)); destruct (decide (n ∈ Tea)); set_solver.
-  - unfold es_all. rewrite Eot, Eea, Pfee. unfold es_all.
-    rewrite (sfee_add_eq tbl (on_time es ∪ early es)
-               (on_time es ∖ Tot ∪ early es ∖ Tea) (Tot ∪ Tea)); [lia| |set_solver].
-    intros n. destruct (decide (n ∈ Tot)); destruct (decide (n ∈ Tea)); set_solver.
-Qed.
-
-(* E7: every sector of the entry is faulty afterwards (missed PoSt) *)
-Lemma esp_all_faulty qs tbl F F' k es es' :
-  ExpSetPre qs tbl F k es ->
-  es_all es ⊆ F' ->
-  on_time es' = on_time es -> early es' = early es ->
-  on_time_pledge es' = on_time_pledge es ->
-  active_power es' = pp0 ->
-  faulty_power es' = pp_add (faulty_power es) (active_power es) ->
-  fee_deduction es' = fee_deduction es ->
-  ExpSetPre qs tbl F' k es'.
-Proof.
-  intros [Pq Pk Pd Pef Pot Pea Ppl Pact Pflt Pfee] HF Eot Eea Epl Eact Eflt Efee. unfold es_all in *.
-  constructor; rewrite ?Eot, ?Eea, ?Epl, ?Eact, ?Eflt, ?Efee; try assumption.
-  - set_solver.
-  - rewrite <- (spow_empty tbl). apply spow_eq. set_solver.
-  - rewrite Pflt, Pact. symmetry. apply spow_add_eq; [|set_solver].
-    intros n. destruct (decide (n ∈ F)); set_solver.
-  - unfold es_all. rewrite Eot, Eea. exact Pfee.
-Qed.
 
 (* ---------- results of the small queue primitives ---------- *)
 Lemma q_may_get_ok q k es : q_may_get q k = Ok es -> 0 <= k /\ es = default es_empty (q !! k).
@@ -258,6 +58,43 @@ Lemma others_same qs (tbl : gmap N sector) F L (q : gmap Z expset) k :
      es_all es2 ∩ F ≡ es_all es2 ∩ F /\ (forall n, n ∈ es_all es2 -> tbl !! n = tbl !! n).
 Proof. intros _ k2 es2 _ _. split; [reflexivity|auto]. Qed.
 
+(* The generic single-entry move: entry k loses the sectors R and gains fresh sectors A; the fault
+   set may change, but only on sectors of that entry or of A. *)
+Lemma QInv_modify qs (tbl : gmap N sector) F F' L (q : gmap Z expset) k es' (R A : gset N) :
+  QInv qs tbl F L q ->
+  R ⊆ es_all (default es_empty (q !! k)) ->
+  es_all es' ≡ (es_all (default es_empty (q !! k)) ∖ R) ∪ A ->
+  A ## L ->
+  (forall n, n ∉ es_all (default es_empty (q !! k)) ∪ A -> (n ∈ F' <-> n ∈ F)) ->
+  ExpSetPre qs tbl F' k es' ->
+  QInv qs tbl F' ((L ∖ R) ∪ A) (if es_is_empty es' then delete k q else <[k := es']> q).
+Proof.
+  intros HQ HR Hall HA HF Hpre.
+  set (old := es_all (default es_empty (q !! k))) in *.
+  assert (Hold : old ⊆ L).
+  { subst old. destruct (q !! k) as [es|] eqn:E; cbn; [|set_solver].
+    eapply qinv_entry_sub; eauto. }
+  assert (Hoth : forall k2 es2, k2 <> k -> q !! k2 = Some es2 ->
+                 es_all es2 ## old /\ es_all es2 ## A).
+  { intros k2 es2 Hne H2. split.
+    - subst old. destruct (q !! k) as [es|] eqn:E; cbn; [|set_solver].
+      eapply qi_disj; eauto.
+    - pose proof (qinv_entry_sub _ _ _ _ _ _ _ HQ H2) as Hs.
+      clear -Hs HA. set_solver. }
+  eapply QInv_update_or_delete; [exact HQ| |exact Hpre| |].
+  - intros k2 es2 Hne H2. destruct (Hoth _ _ Hne H2) as [D1 D2]. split; [|auto].
+    intros n. rewrite !elem_of_intersection. split; intros [Hn Hf]; (split; [assumption|]);
+      apply HF; try assumption; clear -Hn D1 D2; set_solver.
+  - intros k2 es2 Hne H2. destruct (Hoth _ _ Hne H2) as [D1 D2].
+    rewrite Hall. clear -D1 D2. set_solver.
+  - rewrite Hall. fold old. clear -Hold HR. intros n.
+    destruct (decide (n ∈ old)); destruct (decide (n ∈ R)); set_solver.
+Qed.
+
+Lemma default_all_none (q : gmap Z expset) k : q !! k = None ->
+  es_all (default es_empty (q !! k)) = ∅.
+Proof. intros ->. reflexivity. Qed.
+
 (* Q1: q_add of fresh non-faulty on-time sectors *)
 Lemma q_add_on_time_inv qs tbl F L (q q' : gmap Z expset) e (T : gset N) :
   0 < q_unit qs -> QInv qs tbl F L q ->
@@ -274,28 +111,88 @@ Proof.
   apply es_add_ok in Ea as (Eot & Eea & Epl & Eact & Eflt & Efee).
   unfold q_must_update in Hadd. destruct (k <? 0); [discriminate|]. injection Hadd as <-.
   assert (Hq : quant_up qs k = k) by (apply quant_up_idem, Hu).
-  assert (Hd : es_all (default es_empty (q !! k)) ## T).
-  { destruct (q !! k) as [es|] eqn:E; cbn; [|set_solver].
-    eapply qinv_others_disj_fresh; eauto. }
-  eapply QInv_insert; [exact HQ|eapply others_same; exact HQ| | |].
-  - apply esi_of_pre.
-    + eapply (esp_add_on_time qs tbl F k _ es' T); try eassumption.
-      * eapply qinv_pre_at; eauto.
-      * set_solver.
-      * rewrite Eea. set_solver.
-      * rewrite Eflt. apply pp_add_0_r.
-    + unfold es_all. rewrite Eot. set_solver.
-  - intros k2 es2 _ H2. unfold es_all at 2. rewrite Eot, Eea.
-    pose proof (qinv_others_disj_fresh _ _ _ _ _ _ HQ HTL _ _ H2).
-    destruct (q !! k) as [es|] eqn:E; cbn.
-    + destruct (decide (k2 = k)) as [->|Hne2].
-      * rewrite E in H2. injection H2 as ->. unfold es_all in *. set_solver.
-      * pose proof (qi_disj _ _ _ _ _ HQ _ _ _ _ Hne2 H2 E). unfold es_all in *. set_solver.
-    + unfold es_all in *. set_solver.
-  - unfold es_all at 1. rewrite Eot, Eea.
-    pose proof (qinv_pre_at _ _ _ _ _ _ HQ Hq Hk) as _.
-    destruct (q !! k) as [es|] eqn:E; cbn.
-    + pose proof (qinv_entry_sub _ _ _ _ _ _ _ HQ E). unfold es_all in *.
-      intros n. destruct (decide (n ∈ on_time es ∪ early es)); set_solver.
-    + set_solver.
+  set (old := default es_empty (q !! k)) in *.
+  assert (Hold : es_all old ⊆ L).
+  { subst old. destruct (q !! k) as [es|] eqn:E; cbn; [|set_solver].
+    eapply qinv_entry_sub; eauto. }
+  assert (Hall : es_all es' ≡ (es_all old ∖ ∅) ∪ T).
+  { unfold es_all. rewrite Eot, Eea. clear. set_solver. }
+  assert (Hnemp : es_is_empty es' = false).
+  { apply es_is_empty_false. intros E. rewrite E in Hall. clear -Hall Hne. set_solver. }
+  pose proof (QInv_modify qs tbl F F L q k es' ∅ T HQ) as HM. fold old in HM.
+  rewrite Hnemp in HM. replace (L ∪ T) with (L ∖ ∅ ∪ T) by (apply seteq_L; clear; set_solver).
+  apply HM; clear HM; try assumption.
+  - clear. set_solver.
+  - tauto.
+  - eapply (esp_add_on_time qs tbl F k old es' T); try eassumption.
+    + subst old. eapply qinv_pre_at; eauto.
+    + clear -Hold HTL. set_solver.
+    + rewrite Eea. clear. set_solver.
+    + rewrite Eflt. apply pp_add_0_r.
+Qed.
+
+(* Q2: q_add of fresh faulty sectors as early at a key below their own expiration *)
+Lemma q_add_early_inv qs tbl F L (q q' : gmap Z expset) e (T : gset N) :
+  0 < q_unit qs -> QInv qs tbl F L q ->
+  q_add qs q e ∅ T pp0 (spow tbl T) 0 (sfee tbl T) = Ok q' ->
+  T <> ∅ -> T ## L -> T ⊆ F ->
+  (forall n, n ∈ T -> exists s, tbl !! n = Some s /\ quant_up qs e < quant_up qs (s_exp s)) ->
+  QInv qs tbl F (L ∪ T) q'.
+Proof.
+  intros Hu HQ Hadd Hne HTL HTF Hat. unfold q_add in Hadd.
+  set (k := quant_up qs e) in *.
+  destruct (q_may_get q k) as [es|] eqn:Eg; cbn [rbind] in Hadd; [|discriminate].
+  apply q_may_get_ok in Eg as [Hk ->].
+  destruct (es_add _ _ _ _ _ _ _) as [es'|] eqn:Ea; cbn [rbind] in Hadd; [|discriminate].
+  apply es_add_ok in Ea as (Eot & Eea & Epl & Eact & Eflt & Efee).
+  unfold q_must_update in Hadd. destruct (k <? 0); [discriminate|]. injection Hadd as <-.
+  assert (Hq : quant_up qs k = k) by (apply quant_up_idem, Hu).
+  set (old := default es_empty (q !! k)) in *.
+  assert (Hold : es_all old ⊆ L).
+  { subst old. destruct (q !! k) as [es|] eqn:E; cbn; [|set_solver].
+    eapply qinv_entry_sub; eauto. }
+  assert (Hall : es_all es' ≡ (es_all old ∖ ∅) ∪ T).
+  { unfold es_all. rewrite Eot, Eea. clear. set_solver. }
+  assert (Hnemp : es_is_empty es' = false).
+  { apply es_is_empty_false. intros E. rewrite E in Hall. clear -Hall Hne. set_solver. }
+  pose proof (QInv_modify qs tbl F F L q k es' ∅ T HQ) as HM. fold old in HM.
+  rewrite Hnemp in HM. replace (L ∪ T) with (L ∖ ∅ ∪ T) by (apply seteq_L; clear; set_solver).
+  apply HM; clear HM; try assumption.
+  - clear. set_solver.
+  - tauto.
+  - eapply (esp_add_early qs tbl F k old es' T); try eassumption.
+    + subst old. eapply qinv_pre_at; eauto.
+    + clear -Hold HTL. set_solver.
+    + rewrite Eot. clear. set_solver.
+    + rewrite Epl. lia.
+    + rewrite Eact. apply pp_add_0_r.
+Qed.
+
+(* Q3: q_remove of non-faulty on-time sectors T of the entry at the (quantised) key k *)
+Lemma q_remove_active_inv qs tbl F L (q q' : gmap Z expset) k es (T : gset N) :
+  QInv qs tbl F L q -> q !! k = Some es ->
+  q_remove qs q k T ∅ (spow tbl T) pp0 (spledge tbl T) (sfee tbl T) = Ok q' ->
+  T ## F ->
+  QInv qs tbl F (L ∖ T) q' /\ T ⊆ on_time es.
+Proof.
+  intros HQ Hk Hrem HTF.
+  pose proof (qi_entry _ _ _ _ _ HQ _ _ Hk) as Hes.
+  unfold q_remove in Hrem. rewrite (ei_quant _ _ _ _ _ Hes) in Hrem.
+  destruct (k <? 0); [discriminate|]. rewrite Hk in Hrem.
+  destruct (es_remove _ _ _ _ _ _ _) as [es'|] eqn:Er; cbn [rbind] in Hrem; [|discriminate].
+  apply es_remove_ok in Er as (Sot & Sea & Eot & Eea & Epl & Eact & Eflt & Efee).
+  unfold q_must_update_or_delete in Hrem. destruct (k <? 0); [discriminate|].
+  injection Hrem as <-. split; [|exact Sot].
+  pose proof (QInv_modify qs tbl F F L q k es' T ∅ HQ) as HM. rewrite Hk in HM. cbn [default] in HM.
+  replace (L ∖ T) with (L ∖ T ∪ ∅) by (apply seteq_L; clear; set_solver).
+  apply HM; clear HM.
+  - unfold es_all. clear -Sot. set_solver.
+  - unfold es_all. rewrite Eot, Eea. pose proof (ei_disj _ _ _ _ _ Hes) as D.
+    clear -Sot D. set_solver.
+  - clear. set_solver.
+  - tauto.
+  - eapply (esp_remove_active qs tbl F k es es' T); try eassumption.
+    + apply esi_pre, Hes.
+    + rewrite Eea. clear. set_solver.
+    + rewrite Eflt. apply pp_sub_0_r.
 Qed.
